@@ -103,6 +103,8 @@ def one_set(ctx, idx, probes):
     profile = "hostile" if idx % 2 else "codec"
     roots, parsed, _ = dsdlgen.make_set(os.path.join(d, "dsdl"), "c10/%s/%d" % (ctx.seed, idx), profile, nroots=2, docs=True)
     from nunavut._postprocessors import LimitEmptyLines, TrimTrailingWhitespace
+    import copy
+    pristine_by_key = {genrun.type_key(t): t for ts in copy.deepcopy(parsed).values() for t in ts}
     nvar = ctx.pick(3, 8)
     for root in roots:
         types = parsed[root]
@@ -128,6 +130,12 @@ def one_set(ctx, idx, probes):
             def run(ts, order_seed=None, **kw):
                 n[0] += 1
                 out = os.path.join(d, "out_%s_%d" % (tag, n[0]))
+                if R.random() < 0.6:
+                    # pristine models (PyDSDL memoizes inside its objects): a deep copy of the freshly parsed types, so that
+                    # nothing an earlier run computed is carried along; the other runs deliberately reuse the shared objects
+                    import copy
+                    ts = copy.deepcopy([pristine_by_key[genrun.type_key(t)] for t in ts])
+                    ctx.count("runs_on_pristine_models")
                 files, ns = genrun.gen_inprocess(ts, root_dir, out, lang, order_seed=order_seed, post_processors=pps(), templates_dir=tdir, **kw)
                 stem = ns.get_language_context().get_target_language().namespace_output_stem
                 shutil.rmtree(out, ignore_errors=True)
@@ -141,7 +149,9 @@ def one_set(ctx, idx, probes):
             ctx.count("base_runs")
             variants = []
             for v in range(nvar):
-                kind = R.choice(["perm", "subset", "closed", "again", "after_other", "after_config"])
+                kind = R.choice(["perm", "subset", "closed", "again", "after_other", "after_config", "config_vs_fresh"])
+                if kind == "config_vs_fresh" and (lang == "html" or tdir):
+                    kind = "perm"
                 try:
                     if kind == "perm":
                         variants.append((kind, run(types, order_seed=R.random())))
@@ -160,6 +170,31 @@ def one_set(ctx, idx, probes):
                         genrun.gen_inprocess(parsed[oroot], os.path.join(d, "dsdl", oroot), o, other)
                         shutil.rmtree(o, ignore_errors=True)
                         variants.append((kind, run(types)))
+                    elif kind == "config_vs_fresh":
+                        # a non-default stropping configuration, generated here after everything that ran before in this
+                        # interpreter, against the same configuration generated alone in a fresh process
+                        ov = {"stropping_prefix": "zq_", "encoding_prefix": "zY"}
+                        o = os.path.join(d, "out_cfg")
+                        files, ns = genrun.gen_inprocess(types, root_dir, o, lang, overrides=ov)
+                        stem = ns.get_language_context().get_target_language().namespace_output_stem
+                        shutil.rmtree(o, ignore_errors=True)
+                        here = per_type_files(files, stem)
+                        fresh = fresh_process_run(d, roots, root, lang, ov, o)
+                        ctx.count("variant_runs[config_vs_fresh]")
+                        for rel, content in here.items():
+                            ctx.count("evaluations")
+                            ctx.count("file_comparisons")
+                            if fresh.get(rel) != content.decode("utf-8", "replace"):
+                                a = (fresh.get(rel) or "").splitlines()
+                                b = content.decode("utf-8", "replace").splitlines()
+                                first = next((i for i, (x, y) in enumerate(zip(a, b)) if x != y), min(len(a), len(b)))
+                                ctx.refute(None, "%s generated with a stropping override differs between this interpreter (after earlier runs) "
+                                                 "and a fresh process (%s)" % (rel, lang),
+                                           dict(set=idx, seed=ctx.seed, root=root, lang=lang, overrides=ov, file=rel, first_diff_line=first,
+                                                fresh_line=a[first][:300] if first < len(a) else None, here_line=b[first][:300] if first < len(b) else None))
+                            else:
+                                ctx.count("file_agree")
+                        continue
                     else:
                         # an earlier run of the same language with another stropping configuration
                         o = os.path.join(d, "out_other")
@@ -191,6 +226,29 @@ def one_set(ctx, idx, probes):
                         ctx.distinct((idx, root, lang, tdir is not None, ppname, rel))
     ctx.sample({"set": idx, "roots": roots, "types": [str(t) for t in parsed[roots[0]]][:6]})
     return roots, parsed, d
+
+
+FRESH = r"""
+import sys, json, os
+sys.path.insert(0, %(verif)r)
+import pydsdl
+from vlib import genrun, common
+from vlib.props import c10
+d, roots, root, lang, ov, out = json.loads(sys.argv[1])
+types = pydsdl.read_namespace(os.path.join(d, "dsdl", root), [os.path.join(d, "dsdl", x) for x in roots if x != root], allow_unregulated_fixed_port_id=True)
+files, ns = genrun.gen_inprocess(types, os.path.join(d, "dsdl", root), out, lang, overrides=ov)
+stem = ns.get_language_context().get_target_language().namespace_output_stem
+print(json.dumps({k: v.decode("utf-8", "replace") for k, v in c10.per_type_files(files, stem).items()}))
+"""
+
+
+def fresh_process_run(d, roots, root, lang, ov, out):
+    import json
+    r = common.run([common.PY, "-c", FRESH % dict(verif=common.VERIF), json.dumps([d, roots, root, lang, ov, out])], env=common.child_env(), timeout=600)
+    shutil.rmtree(out, ignore_errors=True)
+    if r.returncode != 0:
+        raise RuntimeError("fresh-process run failed: %s" % r.stderr[-500:])
+    return json.loads(r.stdout.strip().splitlines()[-1])
 
 
 def _dsdl_text(root_dir, rel):
